@@ -166,14 +166,25 @@ def sheet_text(name):
     return "'" + name.replace("'", "''") + "'"
 
 
-def xlsb_resolve_xti(first, sheets):
-    """independent reading of MS-XLSB 2.5.172 Xti as calamine reports it: the name of the first
-    sheet of the span; -2 = workbook-level, -1 = deleted sheet"""
+def span_text(first, last):
+    """a span of sheets in front of '!' (formula grammar: sheet-range): First:Last when both names are
+    words, else one pair of apostrophes around the span with the apostrophes inside doubled"""
+    if sheet_text(first) == first and sheet_text(last) == last:
+        return first + ":" + last
+    return "'" + first.replace("'", "''") + ":" + last.replace("'", "''") + "'"
+
+
+def xlsb_resolve_xti(first, sheets, last=None):
+    """independent reading of MS-XLSB 2.5.172 Xti (firstSheet, lastSheet; the supporting link is this
+    workbook): the sheet, or the span First:Last when lastSheet names another sheet of the workbook;
+    -2 = workbook-level, -1 = deleted sheet (calamine's placeholders)"""
     if first == -2:
         return "#ThisWorkbook"
     if first == -1:
         return "#InvalidWorkSheet"
     if 0 <= first < len(sheets):
+        if last is not None and last != first and 0 <= last < len(sheets):
+            return span_text(sheets[first], sheets[last])
         return sheet_text(sheets[first])
     return "#Unknown"
 
@@ -287,14 +298,67 @@ NS_R = "http://schemas.openxmlformats.org/officeDocument/2006/relationships"
 DECL = '<?xml version="1.0" encoding="UTF-8" standalone="yes"?>'
 
 
-def xlsb_tail_records(xtis, names, junk=None, cxti=None):
+# ---- supporting links (what XTI.iSupBook indexes): ("self",) this workbook; ("same",) the sheet using it (xlsb
+# only); ("addin",) the add-in functions; ("ext", path, [sheet names]) another workbook
+EXT_TABS = ["Data", "Other Sheet", "Sheet1", "2023", "Übersicht", "a'b", "S"]
+
+
+def random_links(rng, fmt):
+    """a list of supporting links in file order — at least one of them this workbook — and, for the XTIs, the
+    indices of the links that stand for this workbook"""
+    ext = lambda: ("ext", rng.choice(["other.xls", "C:\\data\\[b.xls]", "b"]), rng.sample(EXT_TABS, rng.randrange(0, 4)))
+    p = rng.random()
+    if p < 0.4:
+        links = [("self",)]
+    else:
+        links = [("self",)]
+        for _ in range(rng.randrange(1, 4)):
+            q = rng.random()
+            links.append(ext() if q < 0.55 else ("addin",) if q < 0.85 else ("same",) if fmt == "xlsb" else ("self",))
+        if rng.random() < 0.75:
+            rng.shuffle(links)
+    local = [i for i, l in enumerate(links) if l[0] in ("self", "same")]
+    return links, local
+
+
+def links_arg(links):
+    """LINKS argument of the model's ptg_ast command"""
+    out = []
+    for l in links:
+        if l[0] == "ext":
+            out.append("ext:" + "/".join((x.encode("utf-8").hex() or ".") for x in l[2]))
+        else:
+            out.append(l[0])
+    return ",".join(out) or "-"
+
+
+def links_tag(links):
+    """for the input histogram: the kinds of links present and where the first link to this workbook stands"""
+    first = min(i for i, l in enumerate(links) if l[0] in ("self", "same"))
+    return "%s;first_link_to_this_workbook_at_%d" % ("+".join(sorted(set(l[0] for l in links))), first)
+
+
+def xlsb_sup_records(links):
+    """the supporting-link records of the EXTERNALS block: BrtSupBookSrc (the relationship of the externalLink
+    part), BrtSupSelf, BrtSupSame, BrtSupAddin"""
+    out = []
+    for i, l in enumerate(links):
+        if l[0] == "ext":
+            out.append((0x0163, wide("rIdX%d" % (i + 1))))
+        else:
+            out.append(({"self": 0x0165, "same": 0x0166, "addin": 0x029B}[l[0]], b""))
+    return out
+
+
+def xlsb_tail_records(xtis, names, junk=None, cxti=None, links=None):
     """the records of workbook.bin after BrtEndBundleShs as (type, payload): the externals block
-    (xtis None = no block), the BrtName records, BrtCalcProp, BrtEndBook.  junk: payload of an
-    unknown record placed right before BrtExternSheet (it stays in the reader's buffer);
+    (xtis None = no block) — BrtBeginExternals, the supporting links (links: see random_links; default this
+    workbook only), BrtExternSheet, BrtEndExternals —, the BrtName records, BrtCalcProp, BrtEndBook.
+    junk: payload of an unknown record placed right before BrtExternSheet (it stays in the reader's buffer);
     cxti: declared count when it is to differ from len(xtis)"""
     recs = []
     if xtis is not None:
-        recs += [(0x0161, b""), (0x0165, b"")]
+        recs += [(0x0161, b"")] + xlsb_sup_records(links or [("self",)])
         if junk is not None:
             recs.append((0x0813, junk))
         recs += [(0x016A, brt_externsheet_payload(xtis, cxti)), (0x0162, b"")]
@@ -362,8 +426,10 @@ def lbl_logical(flags, name):
     return name
 
 
-def lbl_payload(flags, itab, name, wide16, rgce, chkey=0):
-    """name: str (for a built-in name: the one-character code); wide16: store 16-bit characters"""
+def lbl_payload(flags, itab, name, wide16, rgce, chkey=0, rgcb=b""):
+    """name: str (for a built-in name: the one-character code); wide16: store 16-bit characters;
+    rgcb: the extra data of the formula (NameParsedFormula = rgce ++ rgcb: array constants, the areas of a
+    PtgMemArea), which follows the rgce inside the record"""
     if wide16:
         u = name.encode("utf-16le")
         cch, nb = len(u) // 2, b"\x01" + u
@@ -371,7 +437,7 @@ def lbl_payload(flags, itab, name, wide16, rgce, chkey=0):
         b = name.encode("latin-1")
         cch, nb = len(b), b"\x00" + b
     assert cch <= 255
-    return struct.pack("<HBBHHH", flags, chkey, cch, len(rgce), 0, itab) + b"\0" * 4 + nb + rgce
+    return struct.pack("<HBBHHH", flags, chkey, cch, len(rgce), 0, itab) + b"\0" * 4 + nb + rgce + rgcb
 
 
 def externsheet_payload(xtis):
